@@ -122,6 +122,13 @@ def run_case(ctx, name, params):
     for k in range(nreq):
         vec = [r.uniform(-1, 1) for _ in range(n)]
         ind = Individual(vec)
+        if not via_algorithm and r.random() < 0.15:
+            # a request for a design object that went through the job pipeline earlier (it is marked evaluated and carries costs,
+            # possibly of an older model state): a request is a request -- the wrapper answers and counts it like any other
+            ind.costs = [r.uniform(-9, 9)]
+            ind.costs_signed = [ind.costs[0], True]
+            ind.state = Individual.State.EVALUATED
+            ctx.count("requests_with_an_already_evaluated_design_object")
         hk_before = hook_calls[0]
         if kind == "scikit_stub":
             s.regressor.next_score = r.choice([1.0, 0.9, 0.2, -3.0, 0.5])     # how well the regressor fits is not the wrapper's business
